@@ -30,6 +30,19 @@ ChildForms == {Node("int", <<>>), Node("var", <<>>), Node("str", <<>>),
 
 StmtForms == {"expr", "def", "mutdef", "kinddef", "assign", "opassign", "idxassign", "commented"}
 
+(* ---- kind annotations: a kind is [k |-> form, kids |-> <<...>>]; every form at the root and below *)
+KLeaf == {"f64", "u8", "i64", "string", "bool", "any", "empty", "atom", "custom", "r64"}
+KUnary == {"mat", "mat13", "matd3", "mat3d", "matdd", "mat3", "matd", "set", "set3", "setd", "opt", "kindof"}
+KBinary == {"tuple", "map", "table", "table3", "record"}
+KForms == KLeaf \cup KUnary \cup KBinary
+KArity(f) == IF f \in KLeaf THEN 0 ELSE IF f \in KUnary THEN 1 ELSE 2
+KNode(f, kids) == [k |-> f, kids |-> kids]
+KChildren == {KNode("f64", <<>>), KNode("u8", <<>>), KNode("string", <<>>), KNode("any", <<>>),
+              KNode("mat", <<KNode("u8", <<>>)>>), KNode("matd3", <<KNode("f64", <<>>)>>), KNode("setd", <<KNode("u8", <<>>)>>),
+              KNode("opt", <<KNode("u8", <<>>)>>), KNode("tuple", <<KNode("u8", <<>>), KNode("f64", <<>>)>>)}
+(* where a kind can be written *)
+KContexts == {"vardef", "mutvardef", "kinddefine", "exprannot", "litannot", "fnarg", "fnout", "enumpayload", "tablecol", "assignannot"}
+
 RoundTrip(r) == r.reparses /\ r.same_tree
 Idempotent(r) == r.reparses => r.idempotent
 =============================================================================
